@@ -210,11 +210,11 @@ func compare(out *hx.Out, h *detx.History, kinds [][]string, histPath, refName s
 		fields := detx.DiffFields(a, b)
 		consensus := false
 		for _, f := range fields {
-			if f == "apphash" || f == "results" || f == "valupd" || f == "h" || f == "ntx" || f == "err" || f == "gas" || f == "codes" || f == "stores" {
+			if f == "apphash" || f == "results" || f == "valupd" || f == "h" || f == "ntx" || f == "err" || f == "gas" || f == "codes" || f == "stores" || f == "inject" {
 				consensus = true
 			}
 		}
-		cls := "non-consensus observation (events/log)"
+		cls := "non-consensus observation (events/log)" // `inject` = outcome digest of the routed messages (EVM return data, gas, logs, events): what a transaction result carries
 		if consensus {
 			cls = "consensus-relevant digest"
 		}
